@@ -231,6 +231,13 @@ def pquantity? (s : String) : Option Quantity :=
     pure { name := n, kind := k, logly := l, attrs := attrs? a }
   | _ => none
 
+def showKind : QKind → String
+  | .transVar => "x" | .measVar => "y" | .transShock => "u" | .antShock => "v" | .measShock => "w" | .param => "p"
+  | .exog => "z" | .transStd => "s" | .measStd => "t"
+
+def showEKind : EKind → String
+  | .transition => "T" | .measurement => "M" | .autovalue => "A"
+
 def ekind? : String → Option EKind
   | "T" => some .transition | "M" => some .measurement | "A" => some .autovalue | _ => none
 
@@ -255,6 +262,22 @@ def portLine (ws : List String) : String :=
       "@".intercalate ((IrisVerif.Portable.encodeEs es).map (fun p =>
         p.code ++ ";" ++ p.dynamic ++ ";" ++ p.steady.getD "None"))
     | none => "bad-op"
+  | ["rt", fl, tol, qs, es, vs] =>
+    match flags? fl, parseRat? tol, (qs.splitOn ",").mapM pquantity?, (es.splitOn "@").mapM pequation?,
+          (vs.splitOn "@").mapM result? with
+    | some fl, some tol, some qs, some es, some vs =>
+      let d : InvData := { desc := "", flags := fl, quantities := qs, equations := es, tolEig := tol, tolEq := tol,
+                           defaultStd := if fl.linear then 1 else 1 / 100 }
+      match IrisVerif.Portable.fromPortable (fun _ e => e) tol (IrisVerif.Portable.toPortable d vs) with
+      | .ok (d', vs') =>
+        "ok " ++ ",".intercalate (d'.quantities.map (fun q => q.name ++ "~" ++ showKind q.kind ++ "~" ++ showLogly q.logly))
+          ++ " " ++ "@".intercalate (d'.equations.map (fun e => showEKind e.kind ++ ";" ++ e.dynamic ++ ";" ++ e.steady))
+          ++ " " ++ showBool d'.flags.linear ++ showBool d'.flags.flat ++ showBool d'.flags.deterministic
+          ++ " " ++ "@".intercalate (vs'.map (fun v => showVals v.1 ++ ";" ++ showVals v.2))
+      | .error e => "err:" ++ (match e with
+          | .format => "format" | .badCode => "badCode" | .duplicateNames => "duplicateNames" | .counts => "counts"
+          | .noVariants => "noVariants" | .unknownName => "unknownName")
+    | _, _, _, _, _ => "bad-op"
   | _ => "bad-op"
 
 def step (line : String) : String :=
